@@ -323,6 +323,11 @@ func isDigitOnlyClass(runes []rune) bool {
 	return true
 }
 
+// isFullDigitClass reports whether the class is exactly [0-9].
+func isFullDigitClass(runes []rune) bool {
+	return len(runes) == 2 && runes[0] == '0' && runes[1] == '9'
+}
+
 // isDigitLeadConcat checks if a concatenation pattern is digit-lead.
 // For concatenation, we iterate through elements:
 // - If an element is optional AND digit-only, we continue (it's fine either way)
@@ -543,15 +548,17 @@ func isDigitRunSkipSafe(re *syntax.Regexp) bool {
 		}
 		return isDigitRunSkipSafe(re.Sub[0])
 	case syntax.OpPlus, syntax.OpStar:
-		// + or * on a digit class: greedy unbounded → safe to skip
+		// + or * on THE digit class: greedy unbounded → safe to skip. A sub-class
+		// such as [0-5] is not: the run of ASCII digits that is skipped may contain
+		// a digit outside the class, after which a match can start inside the run.
 		if len(re.Sub) == 1 && re.Sub[0].Op == syntax.OpCharClass {
-			return isDigitOnlyClass(re.Sub[0].Rune)
+			return isFullDigitClass(re.Sub[0].Rune)
 		}
 		return false
 	case syntax.OpRepeat:
 		// {N,} with no upper bound (Max == -1): greedy unbounded → safe
 		if re.Max == -1 && len(re.Sub) == 1 && re.Sub[0].Op == syntax.OpCharClass {
-			return isDigitOnlyClass(re.Sub[0].Rune)
+			return isFullDigitClass(re.Sub[0].Rune)
 		}
 		return false
 	default:
